@@ -147,3 +147,31 @@ Definition table_coupling_state2 (ps : list (Q * Q * Q * Q * Q)) (xs : list Q) (
 (* F-C03-1 witness: density 4 on [1/4,1/2]x[-1/4,1/4] and on [1/2,3/4]x[1/4,2]; coarse axis [-2,-1,0,1,2] *)
 Definition nd_witness : list (Q * Q * Q * Q * Q) * list Q * nat :=
   ([(1#4, 1#2, -(1#4), 1#4, 4); (1#2, 3#4, 1#4, 2, 4)], [-2; -1; 0; 1; 2], 2%nat).
+
+(* ---- CouplingProcessLevyCopula.next_level (couplinglevycopula.py:90-125): level += 1; grid.refine();
+   _diffusion_matrix_2h = the fine matrix of the level being left; the coarse deterministic path is frozen
+   (freeze_spots + freeze_process_drift * t with the drift VECTOR of the level being left); new fine chain on the refined grid *)
+Record cstate_nd := {
+  cn_level : nat; cn_grid : grid;
+  cn_dm_fine : list (list Q); cn_dm_coarse : option (list (list Q));
+  cn_drift_fine : list Q; cn_drift_coarse : option (list Q) }.
+
+Section LevelsNd.
+  Variable mid : Q -> Q -> Q.
+  Variable dmat_of : grid -> list (list Q).
+  Variable driftv_of : grid -> list Q.
+  Variable x0 : list Q.
+
+  Definition freeze_vec (d : list Q) : list Q :=
+    map (fun xd => (fst xd + snd xd * 1) - (fst xd + snd xd * 0)) (combine x0 d).
+  Definition init_state_nd (g : grid) : cstate_nd :=
+    {| cn_level := 0; cn_grid := g; cn_dm_fine := dmat_of g; cn_dm_coarse := None;
+       cn_drift_fine := driftv_of g; cn_drift_coarse := None |}.
+  Definition next_level_nd (s : cstate_nd) : cstate_nd :=
+    let g' := refine mid (cn_grid s) in
+    {| cn_level := S (cn_level s); cn_grid := g';
+       cn_dm_fine := dmat_of g'; cn_dm_coarse := Some (cn_dm_fine s);
+       cn_drift_fine := driftv_of g'; cn_drift_coarse := Some (freeze_vec (cn_drift_fine s)) |}.
+  Fixpoint run_levels_nd (n : nat) (g : grid) : cstate_nd :=
+    match n with O => init_state_nd g | S m => next_level_nd (run_levels_nd m g) end.
+End LevelsNd.
